@@ -26,33 +26,37 @@ theorem validatePulse_iff (c : ChanState) (σ : PulseSummary) :
     unfold validatePulse at h
     split at h
     · cases h
-    · rename_i h1
+    · rename_i h0
+      have h0' : σ.finite = true := by simpa using h0
       split at h
       · cases h
-      · rename_i h2
+      · rename_i h1
         split at h
         · cases h
-        · rename_i h3
-          have h1' := overRat_false.mp (by simpa using h1)
-          have h2' := overRat_false.mp (by simpa using h2)
+        · rename_i h2
           split at h
-          · rename_i h4
-            exact ⟨h1', h2', h3, fun hd => by simp [hd] at h4⟩
-          · split at h
-            · cases h
-            · rename_i h5
-              split at h
+          · cases h
+          · rename_i h3
+            have h1' := overRat_false.mp (by simpa using h1)
+            have h2' := overRat_false.mp (by simpa using h2)
+            split at h
+            · rename_i h4
+              exact ⟨h0', h1', h2', h3, fun hd => by simp [hd] at h4⟩
+            · split at h
               · cases h
-              · rename_i h6
+              · rename_i h5
                 split at h
                 · cases h
-                · rename_i h7
-                  exact ⟨h1', h2', h3, fun _ => ⟨Rat.not_lt.mp h5,
-                    underRat_false.mp (by simpa using h6), underRat_false.mp (by simpa using h7)⟩⟩
-  · intro ⟨h1, h2, h3, h4⟩
+                · rename_i h6
+                  split at h
+                  · cases h
+                  · rename_i h7
+                    exact ⟨h0', h1', h2', h3, fun _ => ⟨Rat.not_lt.mp h5,
+                      underRat_false.mp (by simpa using h6), underRat_false.mp (by simpa using h7)⟩⟩
+  · intro ⟨h0, h1, h2, h3, h4⟩
     unfold validatePulse
-    rw [overRat_false.mpr h1, overRat_false.mpr h2]
-    rw [if_neg (by simp), if_neg (by simp), if_neg h3]
+    rw [h0, overRat_false.mpr h1, overRat_false.mpr h2]
+    rw [if_neg (by simp), if_neg (by simp), if_neg (by simp), if_neg h3]
     cases hd : c.cfg.isDmm with
     | false => rfl
     | true =>
